@@ -27,7 +27,7 @@ import (
 	"github.com/google/mtail/verif/fsdrv"
 )
 
-const watchdog = 20 * time.Second
+const watchdog = 60 * time.Second
 
 type writerPlan struct {
 	ID      int      `json:"writer"`
@@ -509,7 +509,7 @@ func TestC17(t *testing.T) {
 	r := ev.Start(t, "C17", "exploration")
 	defer r.Finish()
 	r.Rule("schedules on real named pipes, unix and tcp stream sockets (1-4 concurrent connections, one-shot and continuous), unixgram and udp sockets (1-3 senders, whole-line datagrams with empty datagrams in between) and stdin (re-exec'd helper), plus two special schedules (a stream connection cancelled while a single small write — many lines + tail — is still being handed to a slow consumer: everything read must come out; one unixgram sender building a newline-free backlog up to the read-buffer size followed by a large datagram of lines): random chunking incl. cuts inside a line and inside CRLF, random delays, unterminated final lines, closes, and cancellation before any data / mid-way / after everything. Offline check of the delivery log against the write log: per writer the delivered lines equal the written lines in order plus the tail once (complete runs) or a prefix of them (cancelled runs); no delivered line contains data of two writers; the output channel closes after the writer closes (pipes, one-shot) or after cancellation. Non-trivial: schedule with >=2 writers or a tail or a mid-way cancel; distinct by scenario.")
-	r.Assume("a poll timer is emulated by broadcasting the stream waker every 0.5ms", "datagram senders pace their sends (loopback UDP is lossless below receive-buffer overflow)", "a single write of < 3 KiB on a unix / loopback TCP stream socket is queued as one kernel buffer, so a read (128 KiB buffer) that returns any of it returns all of it", "unixgram is reliable (a sender blocks rather than lose a datagram)", "'ends' is checked with a 20s watchdog; its firing is a violation only together with the goroutine dump showing the stream parked")
+	r.Assume("a poll timer is emulated by broadcasting the stream waker every 0.5ms", "datagram senders pace their sends (loopback UDP is lossless below receive-buffer overflow)", "a single write of < 3 KiB on a unix / loopback TCP stream socket is queued as one kernel buffer, so a read (128 KiB buffer) that returns any of it returns all of it", "unixgram is reliable (a sender blocks rather than lose a datagram)", "'ends' is checked with a 60s watchdog; its firing is a violation only together with the goroutine dump showing the stream parked")
 	dir, _ := os.MkdirTemp(ev.Scratch(), "c17")
 	defer os.RemoveAll(dir)
 	per := ev.Pick(60, 1500)
